@@ -59,9 +59,23 @@ def unit2_cases(nq=120, nt=1200):
 
 
 def l1(*insts):
-    def f(tier):
-        return [dict(i) for i in insts if tier == "thorough" or not i.get("thorough_only")]
+    def f(tier, seed=0):
+        out = []
+        for i in insts:
+            if tier != "thorough" and i.get("thorough_only"):
+                continue
+            i = dict(i)
+            if "rand" in i:
+                # the seeded random models (the same generator the code is run on) as an L1 family
+                kw = dict(i.pop("rand"))
+                i["cfgs"] = _rand(tier, seed, 150, 1500, "R", **kw)
+                i["family"] = "random-file"
+            out.append(i)
+        return out
     return f
+
+
+FLAT = dict(nested=False, multi_task_comp=False)
 
 
 def sort_cases(nq=4000, nt=None):
@@ -94,25 +108,31 @@ FULL = dict()
 
 PLANS = {
     "C01": dict(cases=step_cases(["deps", "abs"], NOFAC),
-                l1=l1(dict(family="deps", invariants=["Inv_C01"], properties=["Prop_C01"]),
+                l1=l1(dict(family="rand", rand=NOFAC, invariants=['Inv_C01'], properties=['Prop_C01'], tier=1),
+                      dict(family="deps", invariants=["Inv_C01"], properties=["Prop_C01"]),
                       dict(family="abs", invariants=["Inv_C01"], properties=["Prop_C01"]))),
     "C02": dict(cases=both(unit2_cases(), step_cases(["deps", "alloc", "abs"], FULL)),
-                l1=l1(dict(family="deps", invariants=["Inv_C02"], properties=["Prop_C02"]),
+                l1=l1(dict(family="rand", rand=FLAT, invariants=['Inv_C02'], properties=['Prop_C02'], tier=1),
+                      dict(family="deps", invariants=["Inv_C02"], properties=["Prop_C02"]),
                       dict(family="alloc", invariants=["Inv_C02"], properties=["Prop_C02"]))),
     "C03": dict(cases=both(unit2_cases(), step_cases(["alloc", "place", "conveyor"], FULL)),
-                l1=l1(dict(family="alloc", invariants=["Inv_C03"], properties=["Prop_C03"]),
+                l1=l1(dict(family="rand", rand=FLAT, invariants=['Inv_C03'], properties=['Prop_C03'], tier=1),
+                      dict(family="alloc", invariants=["Inv_C03"], properties=["Prop_C03"]),
                       dict(family="place", invariants=["Inv_C03"], properties=["Prop_C03"]))),
     "C04": dict(cases=step_cases(["alloc", "place", "conveyor"], FULL),
-                l1=l1(dict(family="alloc", invariants=["Inv_C04"], properties=["Prop_C04"]),
+                l1=l1(dict(family="rand", rand=FLAT, invariants=['Inv_C04'], properties=['Prop_C04'], tier=1),
+                      dict(family="alloc", invariants=["Inv_C04"], properties=["Prop_C04"]),
                       dict(family="place", invariants=["Inv_C04"], properties=["Prop_C04"]))),
     "C05": dict(cases=step_cases(["deps", "abs", "place"], FULL),
                 l1=l1(dict(family="deps", invariants=["Inv_C05"], properties=["Live_C05"]),
                       dict(family="abs", invariants=["Inv_C05"]))),
     "C06": dict(cases=step_cases(["deps", "alloc"], FULL),
-                l1=l1(dict(family="deps", invariants=["Inv_C06"], properties=["Prop_C06"]),
+                l1=l1(dict(family="rand", rand=FLAT, invariants=['Inv_C06'], properties=['Prop_C06'], tier=1),
+                      dict(family="deps", invariants=["Inv_C06"], properties=["Prop_C06"]),
                       dict(family="alloc", invariants=["Inv_C06"], properties=["Prop_C06"]))),
     "C07": dict(cases=both(unit2_cases(), step_cases(["alloc", "abs"], FULL)),
-                l1=l1(dict(family="alloc", invariants=["Inv_C07"]),
+                l1=l1(dict(family="rand", rand=FLAT, invariants=['Inv_C07'], properties=[], tier=1),
+                      dict(family="alloc", invariants=["Inv_C07"]),
                       dict(family="abs", invariants=["Inv_C07"]))),
     "C08": dict(cases=step_cases(["deps", "place"], FULL),
                 l1=l1(dict(family="abs", invariants=["Inv_C08"]))),
@@ -126,7 +146,8 @@ PLANS = {
                 l1=l1(dict(family="placeflat", invariants=["Inv_C13"], properties=["Prop_C13"]),
                       dict(family="conveyor", invariants=["Inv_C13"], properties=["Prop_C13"]))),
     "C14": dict(cases=step_cases(["place", "deps"], FULL),
-                l1=l1(dict(family="place", invariants=["Inv_C14"], properties=["Prop_C14"]))),
+                l1=l1(dict(family="rand", rand=FLAT, invariants=['Inv_C14'], properties=['Prop_C14'], tier=1),
+                      dict(family="place", invariants=["Inv_C14"], properties=["Prop_C14"]))),
 }
 
 
